@@ -1,6 +1,4 @@
-import ParryModel.Field
-import ParryModel.C09.Theorems
-import ParryModel.C17.Model
+import ParryModel.C17.Lemmas
 /-!
 # C17 property theorems: cutting and clipping, for every linearly ordered field.
 All statements quantify over the model functions of `C17/Model.lean` instantiated at the lawful instance `fieldNum K sq`.
@@ -9,12 +7,14 @@ Point-set specifications: `C09.BMem` (closed box), `IntMem` (open box), half-spa
 namespace C17
 open Model C09
 
+set_option linter.unusedSectionVars false
+set_option linter.unusedTactic false
+set_option linter.unreachableTactic false
+set_option linter.style.haveILetI false
+
 variable {K : Type} [Field K] [LinearOrder K] [IsStrictOrderedRing K] (sq : K → K)
 
 /-! ## `Aabb::canonical_split` -/
-
-/-- a box is valid (non-empty as a point set) -/
-def ValidBox (b : Aabb3 K) : Prop := b.mins.x ≤ b.maxs.x ∧ b.mins.y ≤ b.maxs.y ∧ b.mins.z ≤ b.maxs.z
 
 omit [Field K] [IsStrictOrderedRing K] in
 private theorem bmem_axis (b : Aabb3 K) (p : V3 K) (i : Fin 3) (h : BMem b p) :
@@ -35,7 +35,9 @@ theorem aabb_split_positive_iff (b : Aabb3 K) (axis : Fin 3) (bias eps : K) (hb 
     split_ifs at h with h1 h2
     exact h1.trans (bmem_axis b p axis hp).1
   · intro h
-    have hm : BMem b b.mins := ⟨⟨le_refl _, hb.1⟩, ⟨le_refl _, hb.2.1⟩, le_refl _, hb.2.2⟩
+    have hb0 := hb 0; have hb1 := hb 1; have hb2 := hb 2
+    simp [V3.get] at hb0 hb1 hb2
+    have hm : BMem b b.mins := ⟨⟨le_refl _, hb0⟩, ⟨le_refl _, hb1⟩, le_refl _, hb2⟩
     have := h _ hm
     rw [if_pos this]
 
@@ -45,8 +47,10 @@ theorem aabb_split_negative_iff (b : Aabb3 K) (axis : Fin 3) (bias eps : K) (hb 
     letI := fieldNum K sq
     b.canonicalSplit axis bias eps = .negative ↔
       (∀ p, BMem b p → p.get axis.val ≤ bias + eps) ∧ ¬ (∀ p, BMem b p → bias - eps ≤ p.get axis.val) := by
-  have hm : BMem b b.mins := ⟨⟨le_refl _, hb.1⟩, ⟨le_refl _, hb.2.1⟩, le_refl _, hb.2.2⟩
-  have hM : BMem b b.maxs := ⟨⟨hb.1, le_refl _⟩, ⟨hb.2.1, le_refl _⟩, hb.2.2, le_refl _⟩
+  have hb0 := hb 0; have hb1 := hb 1; have hb2 := hb 2
+  simp [V3.get] at hb0 hb1 hb2
+  have hm : BMem b b.mins := ⟨⟨le_refl _, hb0⟩, ⟨le_refl _, hb1⟩, le_refl _, hb2⟩
+  have hM : BMem b b.maxs := ⟨⟨hb0, le_refl _⟩, ⟨hb1, le_refl _⟩, hb2, le_refl _⟩
   simp only [Aabb3.canonicalSplit]
   constructor
   · intro h
@@ -126,5 +130,215 @@ theorem aabb_split_pair_spec (b l r : Aabb3 K) (axis : Fin 3) (bias eps : K) (he
 example : (letI := fieldNum ℚ id; (⟨⟨0, 0, 0⟩, ⟨2, 1, 1⟩⟩ : Aabb3 ℚ).canonicalSplit 0 1 (1/4)
     = .pair ⟨⟨0, 0, 0⟩, ⟨1, 1, 1⟩⟩ ⟨⟨1, 0, 0⟩, ⟨2, 1, 1⟩⟩) := by
   simp [Aabb3.canonicalSplit, V3.get, V3.set]; norm_num
+
+
+/-! ## `clip_aabb_line`, `Aabb::{clip_line_parameters, clip_ray_parameters, clip_segment}` -/
+
+/-- **C17 (`clip_aabb_line`, `Some`)**: for a valid box and *every* origin and direction (zero components, zero vector,
+non-unit included), when `clip_aabb_line` returns `Some((tmin, …), (tmax, …))` the closed interval `[tmin, tmax]` is exactly the
+set of parameters `t` (within the representable range `|t| ≤ f64::MAX`, the initial `tmin/tmax` of the code) whose point
+`origin + t·dir` lies in the box. -/
+theorem clip_aabb_line_some (b : Aabb3 K) (o d : V3 K) (hb : ValidBox b) (near far : K × V3 K × Int)
+    (h : letI := fieldNum K sq; clipAabbLine b o d = some (near, far)) :
+    ∀ t, (near.1 ≤ t ∧ t ≤ far.1) ↔ ((-big K ≤ t ∧ t ≤ big K) ∧ BMem b (lineAt o d t)) := by
+  have key := clipLoop_spec sq b o d hb
+  simp only [clipAabbLine] at h
+  revert key h
+  cases @clipLoop K (fieldNum K sq) b o d with
+  | none => intro h key; simp at h
+  | some st =>
+    intro h key
+    simp only [Option.some.injEq, Prod.mk.injEq] at h
+    obtain ⟨h1, h2⟩ := h
+    have e1 : near.1 = st.tmin := by rw [← h1]; split_ifs <;> rfl
+    have e2 : far.1 = st.tmax := by rw [← h2]; split_ifs <;> rfl
+    rw [e1, e2]; exact key.2
+
+/-- **C17 (`clip_aabb_line`, `None`)**: `None` is returned only when no parameter (in the representable range) gives a point
+of the box: `None ⇔` the line misses the box. (Together with `clip_aabb_line_some`: `Some ⇒` the interval is non-empty, since
+`tmin ≤ tmax` is checked by the code.) -/
+theorem clip_aabb_line_none (b : Aabb3 K) (o d : V3 K) (hb : ValidBox b)
+    (h : letI := fieldNum K sq; clipAabbLine b o d = none) :
+    ∀ t, -big K ≤ t → t ≤ big K → ¬ BMem b (lineAt o d t) := by
+  have key := clipLoop_spec sq b o d hb
+  simp only [clipAabbLine] at h
+  revert key h
+  cases @clipLoop K (fieldNum K sq) b o d with
+  | none => intro _ key t h1 h2 hm; exact key t ⟨⟨h1, h2⟩, hm⟩
+  | some st => intro h key; simp at h
+
+/-- `Some` is never an empty interval: `tmin ≤ tmax`, hence (by `clip_aabb_line_some`) the line does meet the box. -/
+theorem clip_aabb_line_some_nonempty (b : Aabb3 K) (o d : V3 K) (hb : ValidBox b) (near far : K × V3 K × Int)
+    (h : letI := fieldNum K sq; clipAabbLine b o d = some (near, far)) :
+    near.1 ≤ far.1 ∧ ∃ t, (-big K ≤ t ∧ t ≤ big K) ∧ BMem b (lineAt o d t) := by
+  have key := clipLoop_spec sq b o d hb
+  have hbig : (0 : K) ≤ big K := le_trans zero_le_one one_le_big
+  simp only [clipAabbLine] at h
+  revert key h
+  cases @clipLoop K (fieldNum K sq) b o d with
+  | none => intro h key; simp at h
+  | some st =>
+    intro h key
+    simp only [Option.some.injEq, Prod.mk.injEq] at h
+    obtain ⟨h1, h2⟩ := h
+    have e1 : near.1 = st.tmin := by rw [← h1]; split_ifs <;> rfl
+    have e2 : far.1 = st.tmax := by rw [← h2]; split_ifs <;> rfl
+    rw [e1, e2]
+    exact ⟨key.1, st.tmin, (key.2 st.tmin).mp ⟨le_refl _, key.1⟩⟩
+
+
+/-- **C17 (`Aabb::clip_line_parameters`)**: `Some((t0,t1))` ⇒ `[t0,t1]` is exactly the parameter set of the line inside the box
+(within `|t| ≤ f64::MAX`) and is non-empty; `None` ⇒ that set is empty. -/
+theorem clip_line_parameters_spec (b : Aabb3 K) (o d : V3 K) (hb : ValidBox b) :
+    letI := fieldNum K sq
+    match clipLineParameters b o d with
+    | some (t0, t1) => t0 ≤ t1 ∧ ∀ t, (t0 ≤ t ∧ t ≤ t1) ↔ ((-big K ≤ t ∧ t ≤ big K) ∧ BMem b (lineAt o d t))
+    | none => ∀ t, -big K ≤ t → t ≤ big K → ¬ BMem b (lineAt o d t) := by
+  simp only [clipLineParameters]
+  have h1 := clip_aabb_line_some sq b o d hb
+  have h2 := clip_aabb_line_none sq b o d hb
+  have h3 := clip_aabb_line_some_nonempty sq b o d hb
+  revert h1 h2 h3
+  cases @clipAabbLine K (fieldNum K sq) b o d with
+  | none => intro _ h2 _; exact h2 rfl
+  | some c =>
+    obtain ⟨near, far⟩ := c
+    intro h1 _ h3
+    exact ⟨(h3 near far rfl).1, h1 near far rfl⟩
+
+/-- **C17 (`Aabb::clip_ray_parameters`)**: `Some((t0,t1))` ⇒ `[t0,t1]` is exactly `{t | 0 ≤ t ≤ f64::MAX, origin + t·dir ∈ box}`
+and is non-empty; `None` ⇒ no `t ≥ 0` (in range) gives a point of the box. -/
+theorem clip_ray_parameters_spec (b : Aabb3 K) (o d : V3 K) (hb : ValidBox b) :
+    letI := fieldNum K sq
+    match clipRayParameters b o d with
+    | some (t0, t1) => t0 ≤ t1 ∧ ∀ t, (t0 ≤ t ∧ t ≤ t1) ↔ ((0 ≤ t ∧ t ≤ big K) ∧ BMem b (lineAt o d t))
+    | none => ∀ t, 0 ≤ t → t ≤ big K → ¬ BMem b (lineAt o d t) := by
+  have hbig : (0 : K) ≤ big K := le_trans zero_le_one one_le_big
+  have key := clip_line_parameters_spec sq b o d hb
+  simp only [clipRayParameters]
+  revert key
+  cases @clipLineParameters K (fieldNum K sq) b o d with
+  | none => intro key t h0 h1; exact key t (by linarith) h1
+  | some c =>
+    obtain ⟨t0, t1⟩ := c
+    intro key
+    simp only [Option.bind_some]
+    simp only [] at key
+    split_ifs with hneg
+    · intro t h0 h1 hm
+      have := (key.2 t).mpr ⟨⟨by linarith, h1⟩, hm⟩
+      linarith [this.2]
+    · push Not at hneg
+      simp only [fieldNum_nmax]
+      refine ⟨max_le key.1 hneg, ?_⟩
+      intro t
+      rw [max_le_iff]
+      constructor
+      · rintro ⟨⟨a1, a2⟩, a3⟩
+        have := (key.2 t).mp ⟨a1, a3⟩
+        exact ⟨⟨a2, this.1.2⟩, this.2⟩
+      · rintro ⟨⟨a1, a2⟩, a3⟩
+        have := (key.2 t).mpr ⟨⟨by linarith, a2⟩, a3⟩
+        exact ⟨⟨this.1, a1⟩, this.2⟩
+
+/-- **C17 (`Aabb::clip_segment`)**: the returned segment is *exactly* `[pa,pb] ∩ box` as a point set, and `None` is returned
+exactly when the segment misses the box (degenerate `pa = pb` included). -/
+theorem clip_segment_spec (b : Aabb3 K) (pa pb : V3 K) (hb : ValidBox b) :
+    letI := fieldNum K sq
+    match clipSegment b pa pb with
+    | some s => ∀ p, s.Mem p ↔ ((Segment3.mk pa pb).Mem p ∧ BMem b p)
+    | none => ∀ p, ¬ ((Segment3.mk pa pb).Mem p ∧ BMem b p) := by
+  have hbig : (1 : K) ≤ big K := one_le_big
+  letI : Num K := fieldNum K sq
+  simp only [clipSegment]
+  have h1 := clip_aabb_line_some sq b pa (@V3.sub K (fieldNum K sq) pb pa) hb
+  have h2 := clip_aabb_line_none sq b pa (@V3.sub K (fieldNum K sq) pb pa) hb
+  revert h1 h2
+  cases @clipAabbLine K (fieldNum K sq) b pa (@V3.sub K (fieldNum K sq) pb pa) with
+  | none =>
+    intro _ h2
+    simp only [Option.bind_none]
+    rintro p ⟨⟨t, t0, t1, rfl⟩, hm⟩
+    rw [lineAt_eq sq] at hm
+    exact h2 rfl t (by linarith) (by linarith) hm
+  | some c =>
+    obtain ⟨near, far⟩ := c
+    intro h1 _
+    have key := h1 near far rfl
+    simp only [Option.bind_some, fieldNum_nmax, fieldNum_nmin]
+    split_ifs with hlt
+    · rintro p ⟨⟨t, t0, t1, rfl⟩, hm⟩
+      rw [lineAt_eq sq] at hm
+      have := (key t).mpr ⟨⟨by linarith, by linarith⟩, hm⟩
+      have a1 : max near.1 0 ≤ t := max_le this.1 t0
+      have a2 : t ≤ min far.1 1 := le_min this.2 t1
+      linarith
+    · push Not at hlt
+      intro p
+      simp only [Segment3.Mem]
+      constructor
+      · rintro ⟨u, u0, u1, rfl⟩
+        -- parameter on the original segment
+        have hpar : max near.1 0 ≤ max near.1 0 + u * (min far.1 1 - max near.1 0) ∧
+            max near.1 0 + u * (min far.1 1 - max near.1 0) ≤ min far.1 1 := by
+          constructor <;> nlinarith
+        set t := max near.1 0 + u * (min far.1 1 - max near.1 0) with ht
+        have ht0 : 0 ≤ t := le_trans (le_max_right _ _) hpar.1
+        have ht1 : t ≤ 1 := le_trans hpar.2 (min_le_right _ _)
+        have hpt : (pa.add ((pb.sub pa).smul (max near.1 0))).add
+            (((pa.add ((pb.sub pa).smul (min far.1 1))).sub (pa.add ((pb.sub pa).smul (max near.1 0)))).smul u)
+            = pa.add ((pb.sub pa).smul t) := by
+          simp only [V3.add, V3.sub, V3.smul, ht, V3.mk.injEq]
+          refine ⟨?_, ?_, ?_⟩ <;> ring
+        rw [hpt]
+        refine ⟨⟨t, ht0, ht1, rfl⟩, ?_⟩
+        have := (key t).mp ⟨le_trans (le_max_left _ _) hpar.1, le_trans hpar.2 (min_le_left _ _)⟩
+        rw [lineAt_eq sq]; exact this.2
+      · rintro ⟨⟨t, t0, t1, rfl⟩, hm⟩
+        rw [lineAt_eq sq] at hm
+        have := (key t).mpr ⟨⟨by linarith, by linarith⟩, hm⟩
+        have a1 : max near.1 0 ≤ t := max_le this.1 t0
+        have a2 : t ≤ min far.1 1 := le_min this.2 t1
+        rcases eq_or_lt_of_le hlt with he | hl
+        · refine ⟨0, le_refl _, zero_le_one, ?_⟩
+          have : t = max near.1 0 := by linarith
+          simp only [V3.add, V3.sub, V3.smul, this, V3.mk.injEq]
+          refine ⟨?_, ?_, ?_⟩ <;> ring
+        · have hpos : 0 < min far.1 1 - max near.1 0 := by linarith
+          refine ⟨(t - max near.1 0) / (min far.1 1 - max near.1 0), div_nonneg (by linarith) hpos.le,
+            (div_le_one hpos).mpr (by linarith), ?_⟩
+          have hu : (t - max near.1 0) / (min far.1 1 - max near.1 0) * (min far.1 1 - max near.1 0) = t - max near.1 0 :=
+            div_mul_cancel₀ _ (ne_of_gt hpos)
+          generalize (t - max near.1 0) / (min far.1 1 - max near.1 0) = u at hu ⊢
+          simp only [V3.add, V3.sub, V3.smul, V3.mk.injEq]
+          refine ⟨?_, ?_, ?_⟩
+          · linear_combination (-(pb.x - pa.x)) * hu
+          · linear_combination (-(pb.y - pa.y)) * hu
+          · linear_combination (-(pb.z - pa.z)) * hu
+
+
+
+/-! non-vacuity: concrete inputs (over `ℚ`) on which the hypotheses hold and each branch is taken -/
+example : ValidBox (⟨⟨0, 0, 0⟩, ⟨1, 2, 3⟩⟩ : Aabb3 ℚ) := by
+  intro i; rcases i with ⟨_ | _ | _ | n, hi⟩ <;> simp [V3.get] <;> omega
+/-- a line whose box lies *behind* the origin (negative parameters): `Some` (the pinned tree says `None`) -/
+example : (letI := fieldNum ℚ id; clipLineParameters (⟨⟨0, 0, 0⟩, ⟨1, 2, 3⟩⟩ : Aabb3 ℚ) ⟨3, 1, 1⟩ ⟨1, 0, 0⟩) = some (-3, -2) := by
+  decide +kernel
+example : (letI := fieldNum ℚ id; clipLineParameters (⟨⟨0, 0, 0⟩, ⟨1, 2, 3⟩⟩ : Aabb3 ℚ) ⟨-1, 1, 1⟩ ⟨2, 0, 0⟩) = some (1/2, 1) := by
+  decide +kernel
+example : (letI := fieldNum ℚ id; clipLineParameters (⟨⟨0, 0, 0⟩, ⟨1, 2, 3⟩⟩ : Aabb3 ℚ) ⟨-1, 5, 1⟩ ⟨1, 0, 0⟩) = none := by
+  decide +kernel
+example : (letI := fieldNum ℚ id; clipRayParameters (⟨⟨0, 0, 0⟩, ⟨1, 2, 3⟩⟩ : Aabb3 ℚ) ⟨3, 1, 1⟩ ⟨1, 0, 0⟩) = none := by
+  decide +kernel
+example : (letI := fieldNum ℚ id; clipRayParameters (⟨⟨0, 0, 0⟩, ⟨1, 2, 3⟩⟩ : Aabb3 ℚ) ⟨1/2, 1, 1⟩ ⟨1, 1, 0⟩) = some (0, 1/2) := by
+  decide +kernel
+/-- segment crossing a face; segment that stops short of the box (`tmin > 1`: `None`, the pinned tree returns a reversed
+segment); zero-length segment inside the box (the pinned tree panics) -/
+example : (letI := fieldNum ℚ id; (clipSegment (⟨⟨0, 0, 0⟩, ⟨1, 2, 3⟩⟩ : Aabb3 ℚ) ⟨-1, 1, 1⟩ ⟨1/2, 1, 1⟩).map fun s => (s.a.x, s.b.x))
+    = some (0, 1/2) := by decide +kernel
+example : (letI := fieldNum ℚ id; (clipSegment (⟨⟨0, 0, 0⟩, ⟨1, 2, 3⟩⟩ : Aabb3 ℚ) ⟨-5, 1, 1⟩ ⟨-3, 1, 1⟩).isNone) = true := by
+  decide +kernel
+example : (letI := fieldNum ℚ id; (clipSegment (⟨⟨0, 0, 0⟩, ⟨1, 2, 3⟩⟩ : Aabb3 ℚ) ⟨1/2, 1, 1⟩ ⟨1/2, 1, 1⟩).map fun s => (s.a.x, s.b.x))
+    = some (1/2, 1/2) := by decide +kernel
 
 end C17
